@@ -263,6 +263,15 @@ def check_cases(ctx, cases):
         with open(path, "wb") as f:
             f.write(data)
         route("from_path", lambda: mh_obs(hashutil.MultiHash.from_path(path, hash_names=set(names))))
+        # the same file reached through symbolic links (absolute, relative, chained): a path is a path
+        lnk_abs, lnk_rel, lnk_chain = path + ".abs", path + ".rel", path + ".chain"
+        for l, t in ((lnk_abs, path), (lnk_rel, os.path.basename(path)), (lnk_chain, os.path.basename(lnk_rel))):
+            if os.path.lexists(l):
+                os.unlink(l)
+            os.symlink(t, l)
+        route("from_path_symlink", lambda: mh_obs(hashutil.MultiHash.from_path(lnk_abs, hash_names=set(names))))
+        route("from_path_symlink_rel", lambda: mh_obs(hashutil.MultiHash.from_path(os.fsencode(lnk_rel), hash_names=set(names))))
+        route("from_path_symlink_chain", lambda: mh_obs(hashutil.MultiHash.from_path(lnk_chain, hash_names=set(names))))
 
         # ---------------- oracle on the implementation: every route == hashlib, sha1_git == git blob id
         must_fail_nolen = any(x.endswith("_git") for x in names) and length is None
